@@ -69,7 +69,7 @@ def tlaps_prove(ctx, module, deps):
 
 
 # findings of the struct-field driver that are about lookups (C16), not about what ends up in the fields (C20)
-C16_FIELDS_FINDINGS = ("Apply asked the service", "with lookups disabled")
+C16_FIELDS_FINDINGS = ("Apply asked the service", "with lookups disabled", "Apply blocked")
 # findings of the backup driver that are about confidentiality at rest (C05), not about the backup schedule (C17)
 C05_BACKUP_FINDINGS = ("the state directory holds", "the key-encryption key was consulted")
 
